@@ -99,14 +99,14 @@ Qed.
 
 (* a module found in ANY portion of a namespace package (not just the first) has a relative package file path *)
 Corollary relpf_any_portion : forall portions i rel, i < List.length portions ->
-  exists s, rel_package_filepath (MList portions) (place_file portions i rel) = Ok s.
+  exists s, rel_package_filepath (MList portions) (place_file portions i rel) = Done s.
 Proof.
   intros portions i rel H. unfold rel_package_filepath.
   destruct (relpf_total (MList portions) (place_file portions i rel) (place_file_under portions i rel H)) as [r ->]. eauto.
 Qed.
 
 Corollary relpf_nested_namespace : forall portions i idx rel, i < List.length portions ->
-  exists s, rel_package_filepath (MList portions) (place_dirs portions (i :: idx) rel) = Ok s.
+  exists s, rel_package_filepath (MList portions) (place_dirs portions (i :: idx) rel) = Done s.
 Proof.
   intros portions i idx rel H. unfold rel_package_filepath.
   destruct (relpf_total (MList portions) _ (place_dirs_under portions i idx rel H)) as [r ->]. eauto.
@@ -137,28 +137,28 @@ End PObjInd.
 
 Fixpoint dmembers (cwd : path) (pkg f : mfp) (l : list (string * pobj)) : res (list (string * obj)) :=
   match l with
-  | [] => Ok []
+  | [] => Done []
   | (n, m) :: r =>
       match derive cwd pkg (Some f) m with
-      | Err e => Err e
-      | Ok m' => match dmembers cwd pkg f r with Err e => Err e | Ok r' => Ok ((n, m') :: r') end
+      | Raised e => Raised e
+      | Done m' => match dmembers cwd pkg f r with Raised e => Raised e | Done r' => Done ((n, m') :: r') end
       end
   end.
 
 Lemma derive_eq : forall cwd pkg cur spec name path fp lineno endlineno doc labels members,
   derive cwd pkg cur (PObj spec name path fp lineno endlineno doc labels members) =
   match effective cur fp with
-  | None => Err ErrBuiltin
+  | None => Raised ErrBuiltin
   | Some f =>
       match rel_filepath cwd f with
-      | Err e => Err e
-      | Ok relf =>
+      | Raised e => Raised e
+      | Done relf =>
           match rel_package_filepath pkg f with
-          | Err e => Err e
-          | Ok relpf =>
+          | Raised e => Raised e
+          | Done relpf =>
               match dmembers cwd pkg f members with
-              | Err e => Err e
-              | Ok ms => Ok (OObj spec name path (render_fp f) relf relpf lineno endlineno doc labels ms)
+              | Raised e => Raised e
+              | Done ms => Done (OObj spec name path (render_fp f) relf relpf lineno endlineno doc labels ms)
               end
           end
       end
@@ -168,11 +168,11 @@ Proof.
   destruct (rel_filepath cwd f); [|reflexivity]. destruct (rel_package_filepath pkg f); [|reflexivity].
   assert (E : forall l, (fix go (l : list (string * pobj)) : res (list (string * obj)) :=
                            match l with
-                           | [] => Ok []
+                           | [] => Done []
                            | (n, m) :: r =>
                                match derive cwd pkg (Some f) m with
-                               | Err e => Err e
-                               | Ok m' => match go r with Err e => Err e | Ok r' => Ok ((n, m') :: r') end
+                               | Raised e => Raised e
+                               | Done m' => match go r with Raised e => Raised e | Done r' => Done ((n, m') :: r') end
                                end
                            end) l = dmembers cwd pkg f l).
   { induction l as [|[n m] r IH]; [reflexivity|]. simpl. destruct (derive cwd pkg (Some f) m); [|reflexivity]. now rewrite IH. }
@@ -184,7 +184,7 @@ Qed.
 Lemma render_fp_not_none : forall f, match render_fp f with FPNone => false | _ => true end = true.
 Proof. now intros [p|l]. Qed.
 
-Theorem derive_loadable : forall cwd pkg t cur o, derive cwd pkg cur t = Ok o -> ploadable t = true -> loadable o = true.
+Theorem derive_loadable : forall cwd pkg t cur o, derive cwd pkg cur t = Done o -> ploadable t = true -> loadable o = true.
 Proof.
   intros cwd pkg t.
   induction t as [name target path lineno endlineno|spec name path fp lineno endlineno doc labels members IH] using pobj_ind';
@@ -204,13 +204,43 @@ Proof.
       simpl. rewrite (IH1 _ _ Dm Hm1). simpl. now apply IHr.
 Qed.
 
-Theorem dump_validates : forall cwd t j, dump cwd t = Ok j -> ploadable t = true -> exists fuel, validates_doc fuel j = Some true.
+Theorem dump_validates : forall cwd t j, dump cwd t = Done j -> ploadable t = true -> exists fuel, validates_doc fuel j = Some true.
 Proof.
-  intros cwd t j H Hl. unfold dump in H. destruct (derive_top cwd t) as [o|] eqn:D; [|discriminate]. inversion H; subst j.
+  intros cwd t j H Hl. unfold dump in H. destruct (derive_top cwd t) as [o|] eqn:D; [|discriminate].
+  destruct (has_object o); [discriminate|]. inversion H; subst j.
   apply full_dump_validates.
   destruct t as [name target path lineno endlineno|spec name path fp lineno endlineno doc labels members].
   - simpl in D. inversion D. reflexivity.
   - destruct fp as [f| |]; cbn [derive_top] in D; try discriminate. exact (derive_loadable _ _ _ _ _ D Hl).
+Qed.
+
+(* derivation touches paths only: the objects json cannot serialise are where they were *)
+Lemma derive_has_object : forall cwd pkg t cur o, derive cwd pkg cur t = Done o -> has_object o = phas_object t.
+Proof.
+  intros cwd pkg t.
+  induction t as [name target path lineno endlineno|spec name path fp lineno endlineno doc labels members IH] using pobj_ind';
+    intros cur o H.
+  - simpl in H. inversion H. reflexivity.
+  - rewrite derive_eq in H. destruct (effective cur fp) as [f|]; [|discriminate].
+    destruct (rel_filepath cwd f) as [relf|]; [|discriminate]. destruct (rel_package_filepath pkg f) as [relpf|]; [|discriminate].
+    destruct (dmembers cwd pkg f members) as [ms|] eqn:D; [|discriminate]. inversion H; subst o. clear H.
+    cbn [has_object phas_object]. f_equal.
+    revert ms D. induction members as [|[n m] r IHr]; intros ms D.
+    + simpl in D. inversion D. reflexivity.
+    + simpl in D. destruct (derive cwd pkg (Some f) m) as [m'|] eqn:Dm; [|discriminate].
+      destruct (dmembers cwd pkg f r) as [r'|] eqn:Dr; [|discriminate]. inversion D; subst ms.
+      inversion IH as [|x l IH1 IH2]; subst. simpl in IH1.
+      simpl. rewrite (IH1 _ _ Dm). f_equal. now apply IHr.
+Qed.
+
+Lemma ploadable_no_object : forall t, ploadable t = true -> phas_object t = false.
+Proof.
+  induction t as [name target path lineno endlineno|spec name path fp lineno endlineno doc labels members IH] using pobj_ind';
+    intros Hl; [reflexivity|].
+  cbn [ploadable] in Hl. apply andb_true_iff in Hl. destruct Hl as [Hl Hm]. apply andb_true_iff in Hl. destruct Hl as [Hs _].
+  cbn [phas_object]. rewrite (spec_ok_no_object _ Hs). simpl.
+  induction members as [|[n m] r IHr]; [reflexivity|]. simpl in *. apply andb_true_iff in Hm. destruct Hm as [Hm1 Hm2].
+  inversion IH as [|x l IH1 IH2]; subst. simpl in IH1. rewrite (IH1 Hm1). simpl. now apply IHr.
 Qed.
 
 (* ---------- exactly when the dump raises ---------- *)
@@ -221,7 +251,7 @@ Definition cur_ok (dirs : list path) (cur : option mfp) (t : pobj) : Prop :=
   | None => match t with PObj _ _ _ PInherit _ _ _ _ _ => False | _ => True end
   end.
 
-Lemma f6_at_rel : forall cwd f, f6_at cwd f = false -> exists s, rel_filepath cwd f = Ok s.
+Lemma f6_at_rel : forall cwd f, f6_at cwd f = false -> exists s, rel_filepath cwd f = Done s.
 Proof.
   intros cwd [p|l] H; simpl in *.
   - destruct (relative_to p cwd); eauto.
@@ -229,7 +259,7 @@ Proof.
     destruct Hb as [r Hr]. destruct (first_some_exists _ _ (fun p => relative_to p cwd) l p r Hp Hr) as [z ->]. eauto.
 Qed.
 
-Lemma f6_at_err : forall cwd f, f6_at cwd f = true -> rel_filepath cwd f = Err ErrRelFilepath.
+Lemma f6_at_err : forall cwd f, f6_at cwd f = true -> rel_filepath cwd f = Raised ErrRelFilepath.
 Proof.
   intros cwd [p|l] H; simpl in *; [discriminate|].
   apply negb_true_iff in H. rewrite first_some_none; [reflexivity|].
@@ -243,7 +273,7 @@ Qed.
    and then with the relative_filepath error *)
 Theorem derive_exact : forall cwd pkg t cur,
   placed (pkg_dirs pkg) t = true -> no_builtin t = true -> cur_ok (pkg_dirs pkg) cur t ->
-  if f6_gap cwd cur t then derive cwd pkg cur t = Err ErrRelFilepath else exists o, derive cwd pkg cur t = Ok o.
+  if f6_gap cwd cur t then derive cwd pkg cur t = Raised ErrRelFilepath else exists o, derive cwd pkg cur t = Done o.
 Proof.
   intros cwd pkg t.
   induction t as [name target path lineno endlineno|spec name path fp lineno endlineno doc labels members IH] using pobj_ind';
@@ -260,8 +290,8 @@ Proof.
       unfold rel_package_filepath. destruct (relpf_total pkg f Hu) as [r ->].
       clear Hp Hb Hc F6.
       assert (Y : if existsb (fun nm => f6_gap cwd (Some f) (snd nm)) members
-                  then dmembers cwd pkg f members = Err ErrRelFilepath
-                  else exists ms, dmembers cwd pkg f members = Ok ms).
+                  then dmembers cwd pkg f members = Raised ErrRelFilepath
+                  else exists ms, dmembers cwd pkg f members = Done ms).
       { induction members as [|[n m] r' IHr]; [simpl; eauto|].
         inversion IH as [|x l IH1 IH2]; subst. simpl in IH1.
         simpl in Hpm, Hbm. apply andb_true_iff in Hpm. destruct Hpm as [Hpm1 Hpm2].
@@ -291,24 +321,36 @@ Qed.
      relative_filepath ValueError;
    - otherwise produces a document, and the document validates. *)
 Theorem dump_exact : forall cwd t,
-  placed_top t = true -> no_builtin t = true ->
-  if f6_gap cwd None t then dump cwd t = Err ErrRelFilepath else exists j, dump cwd t = Ok j.
+  placed_top t = true -> no_builtin t = true -> phas_object t = false ->
+  if f6_gap cwd None t then dump cwd t = Raised ErrRelFilepath else exists j, dump cwd t = Done j.
 Proof.
-  intros cwd t Hp Hb. unfold dump.
+  intros cwd t Hp Hb Ho. unfold dump.
   destruct t as [name target path lineno endlineno|spec name path fp lineno endlineno doc labels members]; [simpl; eauto|].
   destruct fp as [f| |]; try discriminate.
   pose proof (derive_exact cwd f _ None (placed_top_spec _ _ _ _ _ _ _ _ _ Hp) Hb I) as X.
   cbn [derive_top]. destruct (f6_gap cwd None _).
   - now rewrite X.
-  - destruct X as [o ->]. eauto.
+  - destruct X as [o Ho']. rewrite Ho'. rewrite (derive_has_object _ _ _ _ _ Ho'), Ho. eauto.
+Qed.
+
+(* an object json cannot serialise makes the dump raise TypeError whenever the paths are fine (C09-F8, second form) *)
+Theorem dump_object : forall cwd t,
+  placed_top t = true -> no_builtin t = true -> f6_gap cwd None t = false -> phas_object t = true ->
+  dump cwd t = Raised ErrNotSerializable.
+Proof.
+  intros cwd t Hp Hb H6 Ho. unfold dump.
+  destruct t as [name target path lineno endlineno|spec name path fp lineno endlineno doc labels members]; [discriminate|].
+  destruct fp as [f| |]; try discriminate.
+  pose proof (derive_exact cwd f _ None (placed_top_spec _ _ _ _ _ _ _ _ _ Hp) Hb I) as X.
+  rewrite H6 in X. destruct X as [o Ho']. cbn [derive_top]. rewrite Ho'. now rewrite (derive_has_object _ _ _ _ _ Ho'), Ho.
 Qed.
 
 Theorem dump_total_modulo_known : forall cwd t,
   ploadable t = true -> no_builtin t = true -> f7_gap t = false -> f6_gap cwd None t = false ->
-  exists j, dump cwd t = Ok j /\ exists fuel, validates_doc fuel j = Some true.
+  exists j, dump cwd t = Done j /\ exists fuel, validates_doc fuel j = Some true.
 Proof.
   intros cwd t Hl Hb H7 H6. unfold f7_gap in H7. apply negb_false_iff in H7.
-  pose proof (dump_exact cwd t H7 Hb) as X. rewrite H6 in X. destruct X as [j Hj].
+  pose proof (dump_exact cwd t H7 Hb (ploadable_no_object t Hl)) as X. rewrite H6 in X. destruct X as [j Hj].
   exists j. split; [assumption|]. eapply dump_validates; eauto.
 Qed.
 
@@ -320,8 +362,8 @@ Definition f6_witness : pobj :=
     [("m", PObj KModule "m" "ns.m" (POwn (MOne ["w"; "ns"; "m.py"])) None None None [] [])].
 
 Lemma f6_refutes : ploadable f6_witness = true /\ no_builtin f6_witness = true /\ f7_gap f6_witness = false
-  /\ f6_gap ["elsewhere"] None f6_witness = true /\ dump ["elsewhere"] f6_witness = Err ErrRelFilepath
-  /\ exists j, dump ["w"] f6_witness = Ok j.
+  /\ f6_gap ["elsewhere"] None f6_witness = true /\ dump ["elsewhere"] f6_witness = Raised ErrRelFilepath
+  /\ exists j, dump ["w"] f6_witness = Done j.
 Proof. repeat split; try (vm_compute; reflexivity). eexists. vm_compute. reflexivity. Qed.
 
 (* C09-F7: regular package /a/pkg merged with the stubs-only package /b/pkg-stubs, which has a module of its own *)
@@ -330,13 +372,13 @@ Definition f7_witness : pobj :=
     [("only", PObj KModule "only" "pkg.only" (POwn (MOne ["b"; "pkg-stubs"; "only.pyi"])) None None None [] [])].
 
 Lemma f7_refutes : ploadable f7_witness = true /\ no_builtin f7_witness = true /\ f6_gap [] None f7_witness = false
-  /\ f7_gap f7_witness = true /\ forall cwd, dump cwd f7_witness = Err ErrRelPackageFilepath.
+  /\ f7_gap f7_witness = true /\ forall cwd, dump cwd f7_witness = Raised ErrRelPackageFilepath.
 Proof.
   repeat split; try (vm_compute; reflexivity). intros cwd. unfold dump, f7_witness. cbn [derive_top]. rewrite derive_eq.
   cbn [effective].
-  assert (R : forall p, exists s, rel_filepath cwd (MOne p) = Ok s) by (intros p; simpl; destruct (relative_to p cwd); eauto).
+  assert (R : forall p, exists s, rel_filepath cwd (MOne p) = Done s) by (intros p; simpl; destruct (relative_to p cwd); eauto).
   destruct (R ["a"; "pkg"; "__init__.py"]) as [s1 ->].
-  replace (rel_package_filepath (MOne ["a"; "pkg"; "__init__.py"]) (MOne ["a"; "pkg"; "__init__.py"])) with (@Ok string "pkg/__init__.py") by reflexivity.
+  replace (rel_package_filepath (MOne ["a"; "pkg"; "__init__.py"]) (MOne ["a"; "pkg"; "__init__.py"])) with (@Done string "pkg/__init__.py") by reflexivity.
   cbn [dmembers]. rewrite derive_eq. cbn [effective]. destruct (R ["b"; "pkg-stubs"; "only.pyi"]) as [s2 ->].
   reflexivity.
 Qed.
@@ -360,7 +402,44 @@ Example ns_sample_in_domain : ploadable ns_sample = true /\ no_builtin ns_sample
 Proof. repeat split; vm_compute; reflexivity. Qed.
 
 Example ns_sample_dumps : match dump ["w"; "first"] ns_sample with
-                          | Ok j => validates_doc 64 j = Some true
-                          | Err _ => False
+                          | Done j => validates_doc 64 j = Some true
+                          | Raised _ => False
                           end.
 Proof. vm_compute. reflexivity. Qed.
+
+(* C09-F8: what only dynamic inspection lets through. Module /w/m.py with `def f(x=K()): ...` where `K().__name__` is 3
+   (dumped as it is: invalid document), or is an object json has no rule for (TypeError). *)
+Definition inspected_module (params : list parameter) : pobj :=
+  PObj KModule "m" "m" (POwn (MOne ["w"; "m.py"])) None None None []
+    [("f", PObj (KFunction [] params ANone) "f" "m.f" PInherit None None None [] [])].
+
+Definition f8_witness : pobj := inspected_module [mkParam "x" ANone (Some "positional or keyword") (ARaw (JInt 3)) None].
+Definition f8_object_witness : pobj := inspected_module [mkParam "x" ANone (Some "positional or keyword") AObject None].
+
+Lemma f8_refutes : ploadable f8_witness = false /\ no_builtin f8_witness = true /\ f7_gap f8_witness = false
+  /\ f6_gap ["w"] None f8_witness = false
+  /\ exists j, dump ["w"] f8_witness = Done j /\ forall fuel, validates_doc fuel j <> Some true.
+Proof.
+  repeat split; try (vm_compute; reflexivity). eexists. split; [vm_compute; reflexivity|].
+  apply (verdict_unique 64 _ false). vm_compute. reflexivity.
+Qed.
+
+Lemma f8_object_refutes : ploadable f8_object_witness = false /\ no_builtin f8_object_witness = true /\ f7_gap f8_object_witness = false
+  /\ f6_gap ["w"] None f8_object_witness = false /\ dump ["w"] f8_object_witness = Raised ErrNotSerializable.
+Proof. repeat split; vm_compute; reflexivity. Qed.
+
+Theorem dump_exact_full : forall cwd t,
+  placed_top t = true -> no_builtin t = true ->
+  if f6_gap cwd None t then dump cwd t = Raised ErrRelFilepath
+  else if phas_object t then dump cwd t = Raised ErrNotSerializable
+  else exists j, dump cwd t = Done j.
+Proof.
+  intros cwd t Hp Hb. destruct (f6_gap cwd None t) eqn:H6.
+  - destruct t as [name target path lineno endlineno|spec name path fp lineno endlineno doc labels members]; [discriminate|].
+    destruct fp as [f| |]; try discriminate.
+    pose proof (derive_exact cwd f _ None (placed_top_spec _ _ _ _ _ _ _ _ _ Hp) Hb I) as X. rewrite H6 in X.
+    unfold dump. cbn [derive_top]. now rewrite X.
+  - destruct (phas_object t) eqn:Ho.
+    + exact (dump_object cwd t Hp Hb H6 Ho).
+    + pose proof (dump_exact cwd t Hp Hb Ho) as X. now rewrite H6 in X.
+Qed.
